@@ -441,6 +441,24 @@ def run(tier, seed, replay):
             c = check_cases(rep, work, vh, prelude, cases[a:a + step], "t%d" % (a // step), timeout=900 if quick else 6000)
             for k, n in c.items():
                 counters[k] = counters.get(k, 0) + n
+        # several regular expressions in ONE program: every call is the composition of ITS OWN matches, whatever other (regex, flags)
+        # pairs the program evaluated before (the jq definitions append "g" to the flags themselves: "a" used globally and "ag" used
+        # plainly must stay different expressions).  Literal expressions only: JqSem.tla decides these completely (Formats.tla).
+        std_prelude = evalfam.make_prelude(work, vh)
+        pairs = [(("ag", None), ("a", "g")), (("a", "i"), ("ai", None)), (("b", "gi"), ("bgi", None)), (("lo", "g"), ("log", None)), (("x", None), ("", "x")), (("ai", None), ("a", "i")), (("k", "i"), ("ki", None)), (("m", None), ("", "m")),
+                 (("a", ""), ("", "a")), (("ab", None), ("a", None)), (("g", "g"), ("gg", None)), (("ig", None), ("", "ig"))]
+        subjects = ["xa", "xag", "aib", "hello log lo", "ki K", "A ai", "ggg", "abab", ""]
+        fns = ['test(%s; %s)', '[match(%s; %s) | .offset]', '[scan(%s; %s)]', '[splits(%s; %s)]', 'gsub(%s; "-"; %s)', 'sub(%s; "-"; %s)', '[match(%s; %s + "g") | .string]']
+        J = lambda x: "null" if x is None else json.dumps(x)
+        mcases = []
+        for (p1, p2) in pairs:
+            for _ in range(3 if quick else 12):
+                f1, f2, f3 = r.choice(fns), r.choice(fns), r.choice(fns)
+                a, b, c3 = f1 % (J(p1[0]), J(p1[1])), f2 % (J(p2[0]), J(p2[1])), f3 % (J(p1[0]), J(p1[1]))
+                src = '[try (%s) catch "e", try (%s) catch "e", try (%s) catch "e", try (%s) catch "e"]' % (a, b, c3, b)
+                mcases.append({"id": len(mcases), "src": src, "inputs": [V(x) for x in r.sample(subjects, 3)]})
+        mc2 = evalfam.check_cases(rep, work, vh, std_prelude, mcases, tag="multi", timeout=900, per_shard_min=15)
+        rep.cov["several_expressions_in_one_program"] = mc2
         rep.cov["verdicts"] = counters
         rep.cov["second_reading_of_builtin_jq"] = {k: counters.get(k, 0) for k in ("xagree", "xoom", "xmismatch")}
         tw = time.time()
